@@ -71,3 +71,18 @@ Proof.
   - repeat constructor; vm_compute; reflexivity.
   - left. vm_compute. reflexivity.
 Qed.
+
+(* c:and_v(v:pk(A),pk_k(B)): well typed, not in normal form *)
+From Verif Require Import DecodeNf.
+Definition wit_ms2 : ms := MCheck (MAndV (MVerify (MCheck (MPkK 0))) (MPkK 1)).
+Lemma wit2_ok :
+  ms_wf Tap wit_ke wit_ms2 /\ (exists t, type_of wit_ms2 = ROk t /\ c_base (t_corr t) <> BW) /\
+  lim_ok wit_env (nf wit_ke wit_ms2) /\ gv Tap wit_ke (nf wit_ke wit_ms2) = None /\
+  nf wit_ke wit_ms2 <> wit_ms2.
+Proof.
+  split; [cbn; unfold key_ok; cbn; repeat split; reflexivity|].
+  split; [eexists; split; [vm_compute; reflexivity|vm_compute; discriminate]|].
+  split; [|split; [vm_compute; reflexivity|vm_compute; discriminate]].
+  cbn [nf spine map_last chain_of andv_from app lim_ok]. unfold node_lim, key_any.
+  repeat split; try (vm_compute; reflexivity); left; vm_compute; reflexivity.
+Qed.
